@@ -8,6 +8,7 @@ not hidden printed in order, and the close handshake answered once per `.syn clo
 import DtailModel.Generated.Code
 import DtailModel.Lemmas.GoRT
 import DtailModel.Model.Wire
+set_option autoImplicit false
 namespace Dtail.GenClient
 open Dtail Dtail.Go Dtail.Gen.Client
 
